@@ -834,6 +834,8 @@ class SymEval:
             if cn and cn.count('.') == 1 and cn.split('.')[0] in ('self', 'cls', self.cls) and \
                     (self.mod.has_func(f'{self.cls}.{cn.split(".")[1]}') or self.repo.find_method(self.mod, self.mod.cls(self.cls), cn.split('.')[1]) is not None):
                 return self._method(cn.split('.')[1], e, fr, at, depth, busy)
+            if isinstance(f, ast.Name) and self.mod.has_func(f.id) and '.' not in f.id:
+                return self._method(f.id, e, fr, at, depth, busy, module_level=True)
             r = _role(e)
             if r is not None:
                 return {(Hole(r),)}
@@ -936,7 +938,13 @@ class SymEval:
             parts.append(self.shapes(call.args[i], fr, at, depth, busy))
         return _product(parts)
 
-    def _method(self, meth: str, call: ast.Call, fr: Frame, at: T.Optional[Node], depth: int, busy: T.FrozenSet[T.Tuple[str, str, int]]) -> T.Set[Shape]:
+    def _method(self, meth: str, call: ast.Call, fr: Frame, at: T.Optional[Node], depth: int, busy: T.FrozenSet[T.Tuple[str, str, int]],
+                module_level: bool = False) -> T.Set[Shape]:
+        if module_level and meth not in self._methods:
+            # a module-level function of the same module (a helper moved out of the class): no implicit first parameter
+            class _M:       # stands in for the class in messages
+                name = '<module>'
+            self._methods[meth] = (self.mod, _M, self.mod.func(meth))
         if meth not in self._methods:
             if self.mod.has_func(f'{self.cls}.{meth}'):      # own method: no MRO walk needed
                 self._methods[meth] = (self.mod, self.mod.cls(self.cls), self.mod.func(f'{self.cls}.{meth}'))
@@ -955,12 +963,12 @@ class SymEval:
             raise Undecided(f'rule-name producer {c2.name}.{meth} has a path that returns no value')
         if any(isinstance(x, (ast.Yield, ast.YieldFrom)) for x in walk_no_nested(fn, include_root=False)):
             raise Undecided(f'rule-name producer {c2.name}.{meth} is a generator')
-        info = self.infos.of(f'{c2.name}.{meth}', fn)
+        info = self.infos.of(meth if module_level else f'{c2.name}.{meth}', fn)
         if info.cfg.exit_return.id in info.reach(info.cfg.entry, [n for r_ in rets for n in info.cfg.stmt_nodes(r_)]):
             raise Undecided(f'rule-name producer {c2.name}.{meth} can fall off its end (returns None)')
         a = fn.args
         names = [x.arg for x in a.posonlyargs + a.args]
-        if 'staticmethod' not in decorator_names(fn):
+        if 'staticmethod' not in decorator_names(fn) and not module_level:
             names = names[1:]
         defaults = dict(zip(reversed(names), reversed(a.defaults)))
         bind: T.Dict[str, T.Tuple[T.Optional[ast.AST], T.Optional[Frame], T.Optional[Node]]] = {}
